@@ -1,6 +1,6 @@
 \* job hll_serde (C09): everything of TraceHll.cfg plus the serialization clauses
 SPECIFICATION TSpec
-CONSTANTS Ids = {} LgKs = {} Coupons = {} Bigs = {} TrackFed = FALSE Strict09 = TRUE SkPrefix = ""
+CONSTANTS Ids = {} LgKs = {} Coupons = {} Bigs = {} TrackFed = FALSE CheckDesign = FALSE Strict09 = TRUE SkPrefix = ""
 INVARIANT TInv
 POSTCONDITION Accepted
 CHECK_DEADLOCK FALSE
